@@ -65,9 +65,9 @@ def run(ctx):
     tier = "thorough" if not ctx.quick else "quick"
     # (0) anchors
     r = vlib.tlc("BeltVectors", timeout=600, extra=["-continue"], quiet=True)
-    failed = re.findall(r'name = "(\w+)"\s*\n/\\ ok = FALSE', r.out)
+    failed = vlib.failed_vectors(r.out)
     ev.cov["appendix_vectors_evaluated"] = max(0, (r.distinct - 1) // 2)
-    if r.rc != 0 or failed:
+    if r.rc not in (0, 12) or failed or r.distinct < 3:
         ctx.note_inconclusive("reference semantics fails its appendix vectors %s (specification error)" % failed)
         return
     drv = vlib.harness("drv_belt", ["drv_belt.c", "drv_belt_steps.c"], "asan", libs=["-lm"])
